@@ -48,4 +48,11 @@ NormLo(r) == LET a == Clamp(IF r[1] = -1 THEN 0 ELSE r[1])  b == Clamp(IF r[2] =
 NormHi(r) == LET a == Clamp(IF r[1] = -1 THEN 0 ELSE r[1])  b == Clamp(IF r[2] = -1 THEN MAXV ELSE r[2]) IN IF a <= b THEN b ELSE a
 Match(pat, raw) == \A i \in 1..Len(pat) : \E k \in 1..Len(pat[i]) : NormLo(pat[i][k]) <= Level(raw, Len(pat), i) /\ Level(raw, Len(pat), i) <= NormHi(pat[i][k])
 FilterOk(c) == c.res = (IF Match(c.pat, c.raw) THEN 1 ELSE 0)
+\* internal addresses: the filter is a glob over the whole name ("i-" prefix included) - '*' any run of characters, '?' one character,
+\* anchored at both ends (patterns with '[' are not generated).  p, s: sequences of code points
+RECURSIVE Glob(_, _)
+Glob(p, s) == IF p = <<>> THEN s = <<>>
+              ELSE IF Head(p) = 42 THEN \E k \in 0..Len(s) : Glob(Tail(p), SubSeq(s, k + 1, Len(s)))
+              ELSE s # <<>> /\ (Head(p) = 63 \/ Head(p) = Head(s)) /\ Glob(Tail(p), Tail(s))
+GlobOk(c) == c.res = (IF Glob(c.p, c.s) THEN 1 ELSE 0)
 =============================================================================
